@@ -50,6 +50,68 @@ theorem mem_recsFor_mem (sec pt : String) (rule : Rule) (lines : List Rule) :
         rw [memRecords_tag, recsFor_single]; simp
       · exact Or.inr h
 
+/-- `List.erase` does not depend on which lawful `BEq` instance elaboration picked -/
+theorem erase_inst_irrel {α : Type} [DecidableEq α] [b : BEq α] [LawfulBEq α] (l : List α) (a : α) :
+    @List.erase _ instBEqOfDecidableEq l a = @List.erase _ b l a := by
+  induction l with
+  | nil => rfl
+  | cons x xs ih =>
+    simp only [List.erase_cons]
+    rw [ih]
+    have : (@BEq.beq _ instBEqOfDecidableEq x a) = (@BEq.beq _ b x a) := by
+      by_cases h : x = a
+      · subst h; simp
+      · have h1 : (@BEq.beq _ b x a) = false := by simpa using h
+        have h2 : (@BEq.beq _ instBEqOfDecidableEq x a) = false := by simpa using h
+        rw [h1, h2]
+    rw [this]
+
+/-- erasing a tagged line from the adapter's lines erases the rule from the records of its own
+policy type and leaves every other type's records alone -/
+theorem recsFor_erase (sec pt sec' pt' : String) (rule : Rule) (lines : List Rule) :
+    recsFor sec' pt' (memRecords (lines.erase (tag sec pt rule))) =
+      if sec = sec' ∧ pt = pt' then (recsFor sec' pt' (memRecords lines)).erase rule
+      else recsFor sec' pt' (memRecords lines) := by
+  induction lines with
+  | nil => simp [memRecords, recsFor]
+  | cons l ls ih =>
+    have happ : ∀ (x : Rule) (xs : List Rule), memRecords (x :: xs) = memRecords [x] ++ memRecords xs := by
+      intro x xs; rw [← memRecords_append]; rfl
+    by_cases hl : l = tag sec pt rule
+    · subst hl
+      rw [List.erase_cons_head, happ, recsFor_append, memRecords_tag, recsFor_single]
+      by_cases hc : sec = sec' ∧ pt = pt'
+      · simp [hc]
+      · simp [hc]
+    · have hE : (l :: ls).erase (tag sec pt rule) = l :: ls.erase (tag sec pt rule) :=
+        List.erase_cons_tail (by simpa using hl)
+      have hL : recsFor sec' pt' (memRecords (l :: ls.erase (tag sec pt rule))) =
+          recsFor sec' pt' (memRecords [l]) ++ recsFor sec' pt' (memRecords (ls.erase (tag sec pt rule))) := by
+        rw [happ, recsFor_append]
+      have hR : recsFor sec' pt' (memRecords (l :: ls)) =
+          recsFor sec' pt' (memRecords [l]) ++ recsFor sec' pt' (memRecords ls) := by
+        rw [happ, recsFor_append]
+      rw [hE, hL, hR, ih]
+      by_cases hc : sec = sec' ∧ pt = pt'
+      · simp only [hc, and_self, if_true]
+        obtain ⟨h1, h2⟩ := hc; subst h1 h2
+        -- the head line contributes nothing or a rule different from `rule`
+        cases l with
+        | nil => simp [memRecords, recsFor]
+        | cons s t =>
+          cases t with
+          | nil => simp [memRecords, recsFor]
+          | cons p r =>
+            have e1 : memRecords [s :: p :: r] = [(s, p, r)] := by simp [memRecords]
+            rw [e1, recsFor_single]
+            by_cases hk : s = sec ∧ p = pt
+            · obtain ⟨h1, h2⟩ := hk; subst h1 h2
+              have hr : r ≠ rule := by intro h; subst h; exact hl rfl
+              simp only [and_self, if_true, List.singleton_append]
+              rw [List.erase_cons_tail (by simpa using hr)]
+            · simp [hk]
+      · simp [hc]
+
 /-- the adapter's lines and the store agree on every existing policy type -/
 def Mirror (e : Enforcer) : Prop :=
   ∀ sec pt, (e.store.find sec pt).isSome = true → recsFor sec pt (memRecords e.adapter.lines) = e.store.getPolicy sec pt
